@@ -550,8 +550,39 @@ def prove_delivery_relies(src_root, ex: Explorer):
             ob.name = 'C12.no-residue.' + ob.name[4:]
 
 
+def prove_emit_contains_listener_errors(src_root, ex: Explorer):
+    """on_message_received completes the waiters AFTER the handlers and the event listeners of the message have run (C12.on_message_received.
+    order); its no-raise contract assumes that EventBus.emit lets no Exception of a listener escape.  That assumption is the contract of
+    emit, discharged here on the real body: for a co-routine listener and a plain one, raising or not, emit returns normally and the
+    listeners registered after a failing one are still called - a reply whose listener fails still completes its requests."""
+    kinds = ['coroutine', 'plain']
+
+    def path(ctx: Ctx):
+        it = mk(src_root, ctx)
+        kind = kinds[ctx.choose(2, 'listener-kind')]
+        raises = ctx.choose(2, 'first-listener-raises') == 1
+        calls = []
+
+        def first(it2, a, k):
+            calls.append('first')
+            if raises:
+                it2.throw('ValueError', 'listener failed')
+        l1 = Recorder('listener-1', fn=first, is_async=(kind == 'coroutine'), yields=False)
+        l2 = Recorder('listener-2', fn=lambda it2, a, k: calls.append('second'), is_async=(kind == 'coroutine'), yields=False)
+        bus = new(it, 'events', 'EventBus', _events={})
+        it.hooks['events:EventBus._get_listeners_for_event'] = lambda it2, f, a, k: [l1, l2]
+        tagname = f'C12.emit.contains-listener-errors[{kind},{"raises" if raises else "returns"}]'
+        try:
+            run(it, it.getattr(bus, 'emit'), Opaque('event'))
+        except PyRaise as pr:
+            ctx.fail(tagname, f'{pr.exc!r} escaped from EventBus.emit: on_message_received is aborted before the waiters of the message are completed')
+            return
+        ctx.prove(tagname, calls == ['first', 'second'], f'listeners run: {calls}')
+    ex.run(path, 'emit')
+
+
 def items(src_root, tier):
-    return [('place', None), ('delivery', None), ('commands', None), ('negotiation', None), ('matches', None), ('omr', None), ('wait', 'server'), ('wait', 'peer'), ('registration', None), ('execute', None)]
+    return [('emit', None), ('place', None), ('delivery', None), ('commands', None), ('negotiation', None), ('matches', None), ('omr', None), ('wait', 'server'), ('wait', 'peer'), ('registration', None), ('execute', None)]
 
 
 def run_item(src_root, item, tier):
@@ -577,6 +608,8 @@ def run_item(src_root, item, tier):
             prove_delivery_relies(src_root, ex)
         elif kind == 'place':
             prove_place_in_queue_waiter(src_root, ex)
+        elif kind == 'emit':
+            prove_emit_contains_listener_errors(src_root, ex)
     except Unsupported as e:
         res.errors.append(f'{kind}:{arg}: unsupported: {e}')
     collect(res, ex)
